@@ -699,6 +699,9 @@ def run(ctx):
                        'definitions (observed by wrapping the parse call), alias = definition for every key whose definition does not '
                        'reach itself (the hypothesis self_free of C14_alias_eq_definition; the extracted predicates self_free / acyclic_from / '
                        'acyclic_table / mentions / key_text are compared with a textual walk and a walk on the implementation\'s parser); '
+                       'the decorated-alias theorems (attributes / children below find_deepest / repeater / text / self-closing applied to the resolved '
+                       'definition; bare alias = definition for definitions that do not reach themselves) as an oracle on resolve_snippets '
+                       '(trees before the transform pass) for every key, the same trees through the extracted model; '
                        'parse_snippets multi-key expansion; every alias form also through the extracted model. '
                        'non-trivial = decorated alias or user table; distinct by abbreviation + config.')
     multikey_check(ctx)
